@@ -101,6 +101,38 @@ type Embeds interface {
 	Extra(n int)
 }
 
+// methods whose result is the mocked interface itself (builder chains); nil is a
+// legitimate result (end of chain)
+type Chain interface {
+	Next() Chain
+	Wrap(c Chain, depth int) (Chain, error)
+	Named(name string) Chain
+}
+
+// same method name and parameter types as Shapes.P3R0 / Names.Id, other parameter
+// names and order: nothing of another interface's method may leak into this mock
+type Shadow interface {
+	P3R0(c int, a string, b bool)
+	Id(x int) int
+	Copy(ctx context.Context, dst, src string) error
+}
+
+type Shadow2 interface {
+	Copy(ctx context.Context, src, dst string) error
+	Id(id int) int
+}
+
+// method names close to the names the template derives, without colliding
+type Resetty interface {
+	Calls() int
+	FuncGet(k string)
+	Get(k string) int
+	GetCall()
+	Password(p string)
+	ResetGetter()
+	ResetPasswordByEmail(email string) error
+}
+
 type Str struct{ V int }
 
 func (s *Str) String() string { return fmt.Sprint(s.V) }
@@ -125,6 +157,11 @@ var Corpus = []CorpusIface{
 	{Name: "Printer", TypeArgs: "[*Str]", TypeArgsOut: "[*rtc.Str]"},
 	{Name: "Num", MockName: "NumberMock", TypeArgs: "[int]", TypeArgsOut: "[int]"},
 	{Name: "Embeds"},
+	{Name: "Chain"},
+	{Name: "Resetty"},
+	{Name: "Shadow"},
+	{Name: "Shadow2"},
+	{Name: "Single", MockName: "SingleTwin"}, // one interface under two mock names in one run
 }
 
 func (c CorpusIface) Mock() string {
